@@ -106,6 +106,8 @@ def shards(tier, seed):
     # one shard per first operation (the search below each first op is independent)
     out = [('bfs', i, depth) for i in range(len(m))]
     out += [('paths', t, 3 if tier == 'quick' else 4) for t in PATH_TOKENS]
+    # the same search on an application that has a scoped 404 handler (app.error(404, '/x')): 405 stays 405 under its prefix
+    out += [('scoped', i, 2 if tier == 'quick' else 3) for i in range(0, len(m), 4)]
     # seed extension: a third editable rule / another method joins the menu at depth 3
     out.append(('extra', seed % 3, 3))
     return out
@@ -190,8 +192,16 @@ def make_handler(app, hid):
     return h
 
 
+SCOPED = [False]
+
+
 def build(om, hist):
     app = om.Ombott()
+    if SCOPED[0]:
+        @app.error(404, '/x')
+        def scoped_404(route, params):
+            app.response.status = 404
+            return 'nothing under ' + route
     app.route('/y', 'GET', make_handler(app, 'Y'))
     log = []
     for op in hist:
@@ -250,8 +260,8 @@ def real_key(app):
 EXTRA_RULES = []
 
 
-def probe(app, method, path):
-    c = wsgi.call(app, wsgi.environ(method, path))
+def probe(app, method, path, accept=None):
+    c = wsgi.call(app, wsgi.environ(method, path, headers={'Accept': accept} if accept else None))
     if c.escaped is not None:
         return ('escaped', repr(c.escaped), None)
     return (c.code, c.header('X-H'), c.header('Allow'))
@@ -283,6 +293,11 @@ def judge_state(om, hist, app=None):
                 probs.append(('handler', f'{meth} {path}: handled by {got[1]}, model says {exp[1]}'))
             elif exp[0] == 405 and got[2] != exp[2]:
                 probs.append(('allow', f'{meth} {path}: Allow {got[2]!r}, model says {exp[2]!r}'))
+            elif exp[0] == 405:
+                # the same refusal asked for as JSON (an API client): same status, same Allow
+                gj = probe(app, meth, path, 'application/json')
+                if gj[0] != 405 or gj[2] != exp[2]:
+                    probs.append(('allow-json', f'{meth} {path} with Accept: application/json: status {gj[0]} Allow {gj[2]!r}; model: 405 Allow {exp[2]!r}'))
     return probs, legs, m
 
 
@@ -290,6 +305,14 @@ EXTRA_PATHS = []
 
 
 def work(spec):
+    SCOPED[0] = spec[0] == 'scoped'
+    try:
+        return _work(spec)
+    finally:
+        SCOPED[0] = False
+
+
+def _work(spec):
     kind, a, depth = spec
     res = core.new_result()
     om = sut.load()
@@ -306,6 +329,8 @@ def work(spec):
                  [('route', '/x/{p}/z', 'ANY', False), ('route', '/x/{p}/z', 'HEAD', False), ('rm', '/x/{p}/z', 'ANY')]][a]
         m = m[:14] + extra
         first = extra
+    elif kind == 'scoped':
+        first = m[a:a + 4]
     else:
         first = [m[a]]
 
@@ -326,7 +351,7 @@ def work(spec):
             c['emptied_route_states'] += 1
         res['outcomes'].add('state ok' if not probs else 'state ' + probs[0][0])
         for cls, text in probs[:3]:
-            core.add_violation(res, {'kind': 'state', 'hist': [list(o) for o in hist]}, f'after {list(hist)!r}: {text}', sig=cls)
+            core.add_violation(res, {'kind': 'state', 'hist': [list(o) for o in hist], 'scoped': SCOPED[0]}, f'after {list(hist)!r}: {text}', sig=cls)
         return not probs
 
     def on_transition(hist, op, kb, ka, obj):
@@ -339,11 +364,11 @@ def work(spec):
         if acc is False:
             c['rejected_registrations'] += 1
             if not out.startswith('raised') or ka != kb:
-                core.add_violation(res, {'kind': 'transition', 'hist': [list(o) for o in hist + (op,)]},
+                core.add_violation(res, {'kind': 'transition', 'hist': [list(o) for o in hist + (op,)], 'scoped': SCOPED[0]},
                                    f'after {list(hist)!r} the duplicate registration {op!r} must be rejected and change nothing; '
                                    f'outcome {out}, state changed: {ka != kb}', sig='reject')
         elif acc is True and out.startswith('raised'):
-            core.add_violation(res, {'kind': 'transition', 'hist': [list(o) for o in hist + (op,)]},
+            core.add_violation(res, {'kind': 'transition', 'hist': [list(o) for o in hist + (op,)], 'scoped': SCOPED[0]},
                                f'after {list(hist)!r} the operation {op!r} raised {out}', sig='spurious-reject')
 
     if kind == 'extra':
@@ -377,6 +402,17 @@ def _norm(op):
 
 
 def replay(case):
+    SCOPED[0] = bool(case.get('scoped'))
+    try:
+        r = _replay(case)
+    finally:
+        SCOPED[0] = False
+    if r and case.get('scoped'):
+        r = "application with a scoped 404 handler (app.error(404, '/x')): " + r
+    return r
+
+
+def _replay(case):
     om = sut.load()
     hist = tuple(_norm(o) for o in case.get('hist', []))
     extra_rules = sorted({o[1] for o in hist if o[1] not in RULES})
